@@ -1,7 +1,10 @@
 use crate::base::{MetricEvent, DEFAULT_STATISTIC_MAX_RT};
 use enum_map::EnumMap;
 use std::fmt;
+#[cfg(not(sentinel_verif))]
 use std::sync::atomic::{AtomicU32, AtomicU64, Ordering};
+#[cfg(sentinel_verif)]
+use sentinel_verif_rt::sync::atomic::{AtomicU32, AtomicU64, Ordering};
 
 /// use atomic types to ensure metric's internal mutability
 /// otherwise, exclusive Mutex would be necessary on the LeapArray Arc among threads
